@@ -1,10 +1,16 @@
 // Unit chain_query (C03): membership / containment / equality queries of
-// src/repository/resources/chain.rs against the mathematical view of a chain.
+// src/repository/resources/chain.rs against the mathematical view of a chain:
+//   Chain::contains_item  r == in_view(self, item)
+//   Chain::is_encompassed r == view_subset(self, other)     (R4; every unwrap() panic-free)
+//   PartialEq::eq         r == view_eq(self, other)         (R3: emitted as Chain::eq_impl)
+// `self.iter()` reaches `[T]::iter` through the real `Deref::deref` / `Chain::as_slice`, both
+// extracted below (no R12 substitution, no new assumption).
 use vstd::prelude::*;
 use vstd::std_specs::cmp::*;
 use vstd::std_specs::iter::IteratorSpec;
 use core::cmp::Ordering;
 use core::cmp::{min, max};
+use core::ops;
 
 verus! {
 
@@ -198,6 +204,11 @@ impl<T: Block> Chain<T> {
     //@/spec
     //@end
 
+    // The body shadows the parameter `other` by the slice cursor `let mut other = &other.0`; the ghost
+    // `o0` keeps the whole slice.  The cursor is always the suffix of o0 of its own length (so no ghost
+    // index has to be updated in the body), skipped blocks end before every remaining block of self,
+    // and every block of self seen so far lies inside one block of o0.  The three `false` exits are
+    // closed by the broadcast lemmas (triggered by the postcondition's `view_subset` term).
     //@fn src/repository/resources/chain.rs :: impl<T: Block> Chain<T> :: is_encompassed loopiso
     //@sigsub R4 "<C: AsRef<Chain<T>>>(&self, other: &C)" "(&self, other: &Chain<T>)"
     //@sub R4 "other.as_ref().0" "other.0"
@@ -230,6 +241,9 @@ impl<T: Block> Chain<T> {
     //@/loop
     //@end
 
+    // Both slice iterators have consumed the same number k of blocks, and the first k blocks agree in
+    // (lo, hi); every exit is decided by view_eq == pointwise_eq (lemma_view_eq_iff_pointwise).
+    // `remaining()` is prophetic, hence the measure is vstd's `decrease()`.
     //@fn src/repository/resources/chain.rs :: impl<T: Block> PartialEq for Chain<T> :: eq as=eq_impl loopiso
     //@spec
         requires canonical(self.0@), canonical(other.0@),
@@ -257,7 +271,7 @@ impl<T: Block> Chain<T> {
     //@end
 }
 
-impl<T: Block> core::ops::Deref for Chain<T> {
+impl<T: Block> ops::Deref for Chain<T> {
     type Target = [T];
     //@fn src/repository/resources/chain.rs :: impl<T: Block> ops::Deref for Chain<T> :: deref
     //@spec
